@@ -331,6 +331,7 @@ type c05Gen struct {
 	ref   map[string][]byte // content at the last `gen`
 	ops   []string
 	vals  [][]byte // small pool of values re-used across keys (byte-identical values and leaves)
+	want  [][]byte // keys the next key set has to contain (both keys of a planted pair)
 	// wild: the proof may hold an item that is not a node encoding (flipped node, raw value, value
 	// held by hash): such an item is never made the root (decoding arbitrary bytes can ask for a
 	// byte slice of up to 4 GiB, which pkg/scale allocates)
@@ -363,6 +364,37 @@ func (g *c05Gen) twin() {
 		g.put(k, v)
 	}
 	g.put(t, v)
+}
+
+// quad plants, below a base key and below a copy of it differing in one high nibble, a leaf with
+// the SAME partial key and the SAME value of >= 33 bytes (encoding >= 32 bytes) next to a sibling:
+//
+//	base+55 -> V, base+aa -> x        copy+55 -> V, copy+aa -> y
+//
+// x != y: identical leaves below two different branches; x == y: identical subtrees.
+// Both keys holding V are put in the next key set.
+func (g *c05Gen) quad() {
+	r := g.r
+	base := append([]byte{}, g.poolKey()...)
+	if len(base) == 0 {
+		base = []byte{g.alpha[0]}
+	}
+	cp := append([]byte{}, base...)
+	cp[r.Intn(len(cp))] ^= byte(0x10 << uint(r.Intn(4)))
+	tails := [][2]byte{{0x55, 0xaa}, {0x50, 0x5f}, {0x05, 0xf5}}[r.Intn(3)]
+	v := g.vals[0]
+	x, y := c05Value(r), c05Value(r)
+	if r.Chance(1, 3) {
+		y = x
+	}
+	g.put(append(append([]byte{}, base...), tails[0]), v)
+	g.put(append(append([]byte{}, base...), tails[1]), x)
+	g.put(append(append([]byte{}, cp...), tails[0]), v)
+	g.put(append(append([]byte{}, cp...), tails[1]), y)
+	g.want = [][]byte{append(append([]byte{}, base...), tails[0]), append(append([]byte{}, cp...), tails[0])}
+	if r.Bool() {
+		g.want = append(g.want, append(append([]byte{}, cp...), tails[1]))
+	}
 }
 
 // verifyAll: every key of the last key set against the one proof, with its true value
@@ -447,6 +479,17 @@ func (g *c05Gen) keyList(n int, presentOnly bool) (list string, allPresent bool)
 			allPresent = false
 		}
 		parts[i] = vhHex(k)
+	}
+	// the planted pair, then a random order
+	for _, k := range g.want {
+		if _, in := g.state[string(k)]; in {
+			parts = append(parts, vhHex(k))
+		}
+	}
+	g.want = nil
+	for i := len(parts) - 1; i > 0; i-- {
+		j := g.r.Intn(i + 1)
+		parts[i], parts[j] = parts[j], parts[i]
 	}
 	return strings.Join(parts, ","), allPresent
 }
@@ -593,6 +636,9 @@ func c05GenCase(r *vhRng) string {
 	}
 	for i := r.Pick(0, 0, 1, 1, 2); i > 0 && nput > 0; i-- {
 		g.twin()
+	}
+	if r.Chance(1, 4) {
+		g.quad()
 	}
 	// the honest proof: often for a SET of keys
 	kl, allPresent := g.keyList(r.Pick(1, 1, 2, 2, 3, 3, 4, 5, 6, 0), false)
